@@ -5,7 +5,7 @@
     behind"); the theorems below say how much of the stream each sampler consumes ([consumes us r n]: us = pre ++ r
     with n = length pre), which is what the check compares with the state of the real std::mt19937 after the call. *)
 From Coq Require Import ZArith List Reals.
-From LP Require Import Num NumR C18_Model C18_Proofs C18_Proofs_R C18_Proofs_St C18_Proofs_StR C18_Proofs_Hist C18_Proofs_HistR C18_Proofs_StR2 C18_Proofs_Supp C18_Proofs_Wall C18_Proofs_Sel C18_Proofs_SelR.
+From LP Require Import Num NumR C18_Model C18_Proofs C18_Proofs_R C18_Proofs_St C18_Proofs_StR C18_Proofs_Hist C18_Proofs_HistR C18_Proofs_StR2 C18_Proofs_Supp C18_Proofs_Wall C18_Proofs_Sel C18_Proofs_SelR C18_Model2 C18_Proofs_W C18_Proofs_Gen C18_Proofs_GenR.
 Import ListNotations.
 
 (** ** consumption, for an arbitrary number type (control flow only; valid verbatim for doubles) *)
@@ -594,3 +594,78 @@ Theorem C18_examples :
   (unif ROps (/4) (-1) 3 <= 0 /\ / 4 <= (0 - -1) / (3 - -1)).
 Proof. exact (conj history_ex (conj stays_in_support_ex (conj wall_example (conj select_ex sample_uniform_law_ex)))). Qed.
 Print Assumptions C18_examples.
+
+(** * Seventh pass: code that used to be driven by the harness only (C18_Model2.v) *)
+
+(** ** "consumes randomness only from the generator passed to it ... returns ... exactly the requested number of samples": the acceptance
+    statistic of Sample_Metropolis(_2D) (average_acceptance_probability, the efficiency warning) is bookkeeping only -- for EVERY number type the
+    sampler with the statistic returns the samples, the residual stream and the failures of the sampler without it. *)
+Theorem C18_metropolis_statistic_is_transparent {T : Type} (Ops : NumOps T) PDF sigma sample thin burn domain us :
+  forget (sample_metropolis_w Ops PDF sigma sample thin burn domain us) = sample_metropolis Ops PDF sigma sample thin burn domain us.
+Proof. exact (sample_metropolis_w_samples Ops PDF sigma sample thin burn domain us). Qed.
+Print Assumptions C18_metropolis_statistic_is_transparent.
+Theorem C18_metropolis_2d_statistic_is_transparent {T : Type} (Ops : NumOps T) PDF s1 s2 sample thin burn domain us :
+  forget (sample_metropolis_2d_w Ops PDF s1 s2 sample thin burn domain us) = sample_metropolis_2d Ops PDF s1 s2 sample thin burn domain us.
+Proof. exact (sample_metropolis_2d_w_samples Ops PDF s1 s2 sample thin burn domain us). Qed.
+Print Assumptions C18_metropolis_2d_statistic_is_transparent.
+
+(** the reported average acceptance probability of a chain with at least one iteration and a non-negative density is a probability, and the
+    warning is printed exactly when it is below 1e-3 or above 1 - 1e-2 (over R; a chain without iterations divides 0.0 by 0: NaN, no warning,
+    IEEE behaviour covered by the correspondence) *)
+Theorem C18_metropolis_average_is_probability PDF sigma sample thin burn domain us l av w r :
+  (forall z, 0 <= PDF z) -> (0 < metro_imax burn thin sample)%Z ->
+  sample_metropolis_w ROps PDF sigma sample thin burn domain us = Ok (l, (av, w), r) ->
+  0 <= av <= 1 /\ (w = true <-> av < 1 / 1000 \/ 1 - 1 / 100 < av).
+Proof. exact (metropolis_average_is_probability PDF sigma sample thin burn domain us l av w r). Qed.
+Print Assumptions C18_metropolis_average_is_probability.
+Theorem C18_metropolis_2d_average_is_probability PDF s1 s2 sample thin burn domain us l av w r :
+  (forall a b, 0 <= PDF a b) -> (0 < metro_imax burn thin sample)%Z ->
+  sample_metropolis_2d_w ROps PDF s1 s2 sample thin burn domain us = Ok (l, (av, w), r) ->
+  0 <= av <= 1 /\ (w = true <-> av < 1 / 1000 \/ 1 - 1 / 100 < av).
+Proof. exact (metropolis_2d_average_is_probability PDF s1 s2 sample thin burn domain us l av w r). Qed.
+Print Assumptions C18_metropolis_2d_average_is_probability.
+Example C18_metropolis_average_ex :
+  sample_metropolis_w ROps (fun _ => 1) 1 1 1 0 [0; 1] [/2; /2; /2] = Ok ([/2], (1, true), []) /\ (0 < metro_imax 0 1 1)%Z.
+Proof. exact metropolis_average_ex. Qed.
+
+(** ** "all generator seeds and states ... equal generator states give identical outputs and leave equal states behind": the generator itself
+    (std::mt19937: seed, _M_gen_rand, tempering; std::generate_canonical<double,53>) is a Gallina function of the state.  Every state reachable from
+    a seed consists of 624 32-bit words, every raw output is a 32-bit word ... *)
+Theorem C18_generator_seed_state value : mt_wf (mt_seed value).
+Proof. exact (mt_seed_wf value). Qed.
+Print Assumptions C18_generator_seed_state.
+Theorem C18_generator_step g : mt_wf g -> b32 (fst (mt_next g)) /\ mt_wf (snd (mt_next g)).
+Proof. exact (mt_next_wf g). Qed.
+Print Assumptions C18_generator_step.
+(** ... the 10000th output of the default-seeded generator is the value the C++ standard prescribes ([rand.predef]) ... *)
+Example C18_generator_is_mt19937 : fst (mt_next (mt_discard 9999 (mt_seed 5489))) = 4123659995%Z.
+Proof. vm_compute. reflexivity. Qed.
+(** ... the canonical uniforms of every generator state lie in [0,1) (over R: the clamp to nextafter(1,0) is never taken), which is the
+    premise of the containment theorems above: they hold for every seed ... *)
+Theorem C18_generator_uniforms_in_unit_interval n g : mt_wf g -> Forall (fun u => 0 <= u < 1) (mt_stream ROps n g).
+Proof. exact (mt_stream_range n g). Qed.
+Print Assumptions C18_generator_uniforms_in_unit_interval.
+Theorem C18_metropolis_in_domain_from_seed seed n PDF sigma sample thin burn lo hi l r :
+  lo <= hi ->
+  sample_metropolis ROps PDF sigma sample thin burn [lo; hi] (mt_stream ROps n (mt_seed seed)) = Ok (l, r) ->
+  Forall (fun z => lo <= z <= hi) l.
+Proof. exact (metropolis_in_domain_from_seed seed n PDF sigma sample thin burn lo hi l r). Qed.
+Print Assumptions C18_metropolis_in_domain_from_seed.
+Theorem C18_sample_uniform_range_from_seed seed n a b v r : a <= b ->
+  sample_uniform ROps a b (mt_stream ROps n (mt_seed seed)) = Ok (v, r) -> a <= v <= b /\ (a < b -> v < b).
+Proof. exact (sample_uniform_range_from_seed seed n a b v r). Qed.
+Print Assumptions C18_sample_uniform_range_from_seed.
+(** ... and a history of sampler calls run from a generator state (every number type): the answers are those of the stream model on the canonical
+    uniforms of that state, the number k of canonical draws is the sum of the calls' costs, the generator left behind is the state advanced by 2k
+    raw outputs, and the unread part of the stream IS the stream of the generator left behind (nothing is drawn and put back, nothing else is state) *)
+Theorem C18_generator_state_left_behind {T : Type} (Ops : NumOps T) g n cs a k g' :
+  run_from Ops g n cs = Ok (a, k, g') ->
+  exists j, k = Z.of_nat j /\ (j <= n)%nat /\ g' = mt_discard (2 * j) g /\
+            run_calls Ops cs (mt_stream Ops n g) = Ok (a, mt_stream Ops (n - j) g') /\
+            exists c, costs cs a c /\ c = k.
+Proof. exact (run_from_spec Ops g n cs a k g'). Qed.
+Print Assumptions C18_generator_state_left_behind.
+Theorem C18_generator_stream_splits {T : Type} (Ops : NumOps T) n m g :
+  mt_stream Ops (n + m) g = mt_stream Ops n g ++ mt_stream Ops m (mt_discard (2 * n) g).
+Proof. exact (mt_stream_app Ops n m g). Qed.
+Print Assumptions C18_generator_stream_splits.
